@@ -1450,4 +1450,24 @@ theorem stg_step (s0 : State) : StepInv (Stg s0) := by
       · exact Or.inl h
       · right; exact ⟨r, by rw [hst3]; exact List.mem_append_left _ hr⟩
 
+theorem Prog.cachedOrigin {e r : State} (hP : Prog e [] r) {k j : Nat} (hc : r.cache.get k = some j) :
+    e.cache.get k = some j ∨ r.creating.has k = true := by
+  have hoj := hP.str.cacheS k j hc
+  cases ho0 : (e.objs j).oid with
+  | none =>
+    obtain ⟨_, hh⟩ := hP.newTracked j k ho0 hoj
+    simp only [List.not_mem_nil, false_or] at hh
+    exact Or.inr hh.1
+  | some k0 =>
+    have : k0 = k := by have := hP.oidKeep j k0 ho0; rw [hoj] at this; cases this; rfl
+    subst this
+    have hkn := hP.base.known j k0 ho0
+    simp only [List.not_mem_nil, or_false] at hkn
+    rcases hkn with h1 | h1
+    · exact Or.inl h1
+    · rcases hP.addedTracked k0 j h1 with h' | h'
+      · have := (hP.str.addedS k0 j h').2; rw [hc] at this; cases this
+      · exact Or.inr h'.1
+
+
 end Proofs.Conn
